@@ -70,7 +70,6 @@ package action
 //@ macro feeAttrsOf(p) = cast(p.Action.Attributes.cachedValue, "*types/controller/action.FeeAttributes")
 //@ macro isFeeAttrs(p) = p.Action != nil && p.Action.Attributes != nil && istype(p.Action.Attributes.cachedValue, "*types/controller/action.FeeAttributes") && feeAttrsOf(p) != nil
 
-
 //@ func (c *FeeController) HandlePacket(ctx, packet) (err)
 //@   requires[inv]  c != nil && c.BankKeeper != nil && c.eventService != nil
 //@   requires[base] packet != nil && packet.TransferAttributes != nil
